@@ -19,7 +19,8 @@ RULE = ("part 'fields' (exhaustive): for each of the 7 tag datatypes and 17 posi
         "+-1, malformed/duplicate tag name, predefined tag with wrong type, LN != length, path overlap count, "
         "beg > end, '$' on a non-last position, undefined reference / missing link, rGFA restrictions) and their "
         "valid neighbours. non-trivial (fields/pool) = the string is within one deletion/replacement of the "
-        "language boundary; (docs) every mutated document; distinct by (slot, string, vlevel) / case hash")
+        "language boundary; a quarter of the enumerated strings and half of the edited values are first handled at level 0 "
+        "(parsed, read, written, loaded into a Gfa) in the same process - a verdict must not depend on what was parsed before; (docs) every mutated document; distinct by (slot, string, vlevel) / case hash")
 ASSUMPTIONS = [
     "not judged (counted as provisional): scalar JSON values; GFA1 names containing a comma inside lists; floats that overflow to inf; custom record types P, C, L (documented limitation)",
     "strings never contain tab or newline (they would change the field/line structure)",
@@ -126,6 +127,25 @@ def model_judged(slot, s):
     return G.judged(dt, s)
 
 
+def warm_up(slot, s):
+    """The same text handled without validation first (level 0: parsed lazily, read, written, put in a Gfa):
+    whatever that leaves behind in the library must not change the verdict at level >= 1."""
+    version, dt, carrier, fn, closing = SLOTS[slot]
+    text = carrier.format(s)
+    for step in range(3):
+        try:
+            if step == 0:
+                l = gfapy.Line(text, version=version, vlevel=0)
+                l.get(fn)
+                str(l)
+            elif step == 1 and closing is not None:
+                str(gfapy.Gfa(list(closing) + [text], version=version, vlevel=0))
+            elif step == 2:
+                gfapy.Line(text, vlevel=0).validate()
+        except Exception:
+            pass
+
+
 def gfapy_verdict(slot, s, vlevel):
     version, dt, carrier, fn, closing = SLOTS[slot]
     text = carrier.format(s)
@@ -181,6 +201,8 @@ def prop_field(case):
     if not model_judged(slot, s):
         return {"nt": False, "provisional": True}
     want = model_accepts(slot, s)
+    if case.get("warm"):
+        warm_up(slot, s)
     got, info = gfapy_verdict(slot, s, vlevel)
     if got == "foreign":
         raise Violation("foreign", "slot %s string %r vlevel %d: %s" % (slot, s, vlevel, info), "%s/%s" % (slot, info.split(" ")[0]))
@@ -189,7 +211,7 @@ def prop_field(case):
     if not want and got == "accept":
         raise Violation("invalid-accepted", "slot %s: %r is not in the grammar but accepted at vlevel %d (line %r)" % (
             slot, s, vlevel, SLOTS[slot][2].format(s)), slot)
-    return {"nt": near_boundary(slot, s), "slot": slot, "accept": want}
+    return {"nt": near_boundary(slot, s), "slot": slot, "accept": want, "after_level0": bool(case.get("warm"))}
 
 
 def enum_fields(tier):
@@ -205,7 +227,7 @@ def enum_fields(tier):
                         continue
                     s = "".join(tup)
                     for vlevel in ((1, 2, 3) if tier != "quick" else (1 + (i // nshards) % 3,)):
-                        yield {"slot": slot, "s": s, "vlevel": vlevel}
+                        yield {"slot": slot, "s": s, "vlevel": vlevel, "warm": (i // nshards) % 4 == 0}
     return e
 
 
@@ -261,7 +283,7 @@ def enum_pool(shard, nshards):
                 seen.add(m)
                 i += 1
                 if i % nshards == shard:
-                    yield {"slot": slot, "s": m, "vlevel": 1 + i % 3}
+                    yield {"slot": slot, "s": m, "vlevel": 1 + i % 3, "warm": (i // nshards) % 2 == 0}
 
 
 # ------------------------------------------------------------------ document level
